@@ -12,9 +12,15 @@
 /* I_open: what psf_open_file + a codec init establish and every public call preserves. */
 static void
 handle_arbitrary (SF_PRIVATE *psf, int channels, int bytewidth)
-{	int nd_mode = nondet_int (), nd_lastop = nondet_int (), nd_written = nondet_int () ;
-	int nd_seekable = nondet_int (), nd_autohdr = nondet_int (), nd_err = nondet_int () ;
-	sf_count_t nd_frames = nondet_i64 (), nd_rcur = nondet_i64 (), nd_wcur = nondet_i64 () ;
+{	int nd_mode = nondet_int () ;
+	int nd_lastop = nondet_int () ;
+	int nd_written = nondet_int () ;
+	int nd_seekable = nondet_int () ;
+	int nd_autohdr = nondet_int () ;
+	int nd_err = nondet_int () ;
+	sf_count_t nd_frames = nondet_i64 () ;
+	sf_count_t nd_rcur = nondet_i64 () ;
+	sf_count_t nd_wcur = nondet_i64 () ;
 
 	psf->Magick = SNDFILE_MAGICK ;
 	psf->virtual_io = SF_FALSE ;
@@ -43,7 +49,8 @@ handle_arbitrary (SF_PRIVATE *psf, int channels, int bytewidth)
 	psf->blockwidth = (sf_count_t) bytewidth * channels ;
 	psf->norm_float = SF_TRUE ;
 	psf->norm_double = SF_TRUE ;
-	{	sf_count_t nd_dataend = nondet_i64 (), nd_dataoffset = nondet_i64 () ;
+	{	sf_count_t nd_dataend = nondet_i64 () ;
+		sf_count_t nd_dataoffset = nondet_i64 () ;
 		VASSUME (nd_dataoffset >= 0 && nd_dataoffset <= 4096) ;
 		psf->dataoffset = nd_dataoffset ;
 		psf->datalength = psf->sf.frames * psf->blockwidth ;
